@@ -22,6 +22,13 @@ def gen(rng, tier, no, wide=False):
     if rng.random() < 0.4:
         force = {"top_ops": 4, "max_depth": 4, "launch_rate": 0.6, "nstreams": 1}  # > 16 kernels per stream
     case = C.gen_with(rng, C.every_rank_has_device, **force)
+    if rng.random() < 0.1:
+        # the category names older Kineto versions wrote (the analysis lists them next to the current ones)
+        legacy = {"kernel": "Kernel", "gpu_memcpy": "Memcpy", "gpu_memset": "Memset"}
+        for ev in case["ranks"].values():
+            for e in ev:
+                if e.get("cat") in legacy:
+                    e["cat"] = legacy[e["cat"]]
     streams = sorted({(e.get("args") or {}).get("stream") for ev in case["ranks"].values() for e in ev
                       if "stream" in (e.get("args") or {})})
     sel = None if rng.random() < 0.4 else sorted(rng.sample(streams, rng.randint(1, len(streams))))
